@@ -417,6 +417,218 @@ def r20_7(ctx, counts) -> RuleResult:
     return res
 
 
+def r20_8(ctx, counts) -> RuleResult:
+    """the default namespace of an lxml nsmap is under the key None"""
+    model: Model = ctx.model
+    from ..engine.srcmodel import walk_local
+    res = RuleResult(
+        'R20.8', 'DEFAULT-NAMESPACE-BOTH-KEYS',
+        'A namespace map typed NsmapType / AnyNsmapType can be the nsmap of an lxml element, '
+        'which keeps the default namespace under the key None, or a plain dict, which keeps it '
+        "under ''. A function that takes such a map (parameter annotation, also of the enclosing "
+        "function for a closure) and looks the default namespace up with .get('') or [''] also "
+        'consults the key None (`None in m`, `m[None]`, `m.get(None..)`). Otherwise the same '
+        'unprefixed xs:QName content is decoded in no namespace with lxml and in the default '
+        'namespace with ElementTree.')
+    n = 0
+    for f in sorted(model.all_functions(), key=lambda q: q.key):
+        names = set()
+        g = f
+        while g is not None:
+            a = g.node.args
+            for p_ in a.posonlyargs + a.args + a.kwonlyargs:
+                if p_.annotation is not None and 'NsmapType' in stmt_text(p_.annotation):
+                    names.add(p_.arg)
+            g = g.parent
+        if not names:
+            continue
+        for nm in sorted(names):
+            empty = [x for x in walk_local(f.node) if (
+                isinstance(x, ast.Call) and isinstance(x.func, ast.Attribute)
+                and x.func.attr == 'get' and dotted(x.func.value) == nm and x.args
+                and isinstance(x.args[0], ast.Constant) and x.args[0].value == '') or (
+                isinstance(x, ast.Subscript) and dotted(x.value) == nm
+                and isinstance(x.slice, ast.Constant) and x.slice.value == ''
+                and isinstance(x.ctx, ast.Load))]
+            if not empty:
+                continue
+            n += 1
+            scope = f.node
+            none_key = any(
+                (isinstance(x, ast.Compare) and isinstance(x.left, ast.Constant)
+                 and x.left.value is None and any(dotted(c) == nm for c in x.comparators))
+                or (isinstance(x, ast.Subscript) and dotted(x.value) == nm
+                    and isinstance(x.slice, ast.Constant) and x.slice.value is None)
+                or (isinstance(x, ast.Call) and isinstance(x.func, ast.Attribute)
+                    and x.func.attr == 'get' and dotted(x.func.value) == nm and x.args
+                    and isinstance(x.args[0], ast.Constant) and x.args[0].value is None)
+                or (isinstance(x, ast.Subscript) and isinstance(x.value, ast.Call)
+                    and any(isinstance(y, ast.Name) and y.id == nm for y in ast.walk(x.value))
+                    and isinstance(x.slice, ast.Constant) and x.slice.value is None)
+                for x in ast.walk(scope))
+            res.instances.append(f'{f.key}: default namespace of `{nm}` read with the key \'\'; '
+                                 f'key None consulted too: {none_key}')
+            if none_key:
+                res.ok()
+            else:
+                res.fail(finding('R20.8', f, empty[0], f"default namespace of {nm} by '' only",
+                                 f"`{stmt_text(empty[0])[:50]}` reads the default namespace of "
+                                 f"`{nm}` (typed as a possible lxml nsmap) with the key '' only: "
+                                 f"lxml keeps it under None, so an unprefixed QName value gets no "
+                                 f"namespace with lxml and the default namespace with ElementTree"))
+    counts['default_namespace_lookups'] = n
+    if n < 1:
+        raise AnalysisError('no default-namespace lookup on an nsmap-typed parameter located')
+    return res
+
+
+def r20_9(ctx, counts) -> RuleResult:
+    """a decoder does not yield inside a try that goes on to another attempt"""
+    model: Model = ctx.model
+    from ..engine.srcmodel import walk_local
+    res = RuleResult(
+        'R20.9', 'NO-YIELD-BEFORE-RETRY',
+        'The typed value of a node is produced by generators (decoder.get_atomic_sequence, '
+        'iter_atomic_values, the iter_typed_values properties). What a generator has yielded '
+        'cannot be withdrawn: a `yield` inside the body of a `try` whose handler neither raises '
+        'nor returns (the loop goes on to the next prototype / member type) leaks the items '
+        'decoded before the failure in front of those of the next attempt. A list of a union '
+        'type (int | boolean) with the text "1 true 2" yielded 1, failed on "true" and started '
+        'again with the next member type.')
+    n = 0
+    for f in sorted(model.all_functions(), key=lambda q: q.key):
+        if not (f.module.name == 'elementpath.decoder' or f.name == 'iter_typed_values'):
+            continue
+        if not any(isinstance(x, (ast.Yield, ast.YieldFrom)) for x in walk_local(f.node)):
+            continue
+        for tr in walk_local(f.node):
+            if not isinstance(tr, ast.Try):
+                continue
+            ys = [y for b in tr.body for y in ast.walk(b)
+                  if isinstance(y, (ast.Yield, ast.YieldFrom))]
+            if not ys:
+                continue
+            n += 1
+            going_on = [h for h in tr.handlers
+                        if not h.body or not isinstance(h.body[-1], (ast.Raise, ast.Return))]
+            res.instances.append(f'{f.key}: L{tr.lineno} try with {len(ys)} yield(s); handlers '
+                                 f'that go on: {len(going_on)}')
+            if not going_on:
+                res.ok()
+            else:
+                res.fail(finding('R20.9', f, ys[0], 'yield inside a try that goes on',
+                                 f'`{stmt_text(ys[0])[:50]}` is inside a try whose handler '
+                                 f'(`except {stmt_text(going_on[0].type)[:40] if going_on[0].type else ""}`) '
+                                 f'neither raises nor returns: the values yielded before a '
+                                 f'failure stay in the result and the next attempt yields again '
+                                 f'(list of a union type: "1 true 2")'))
+    counts['decoder_try_yields'] = n
+    res.instances.append(f'{n} try statements with a yield in their body examined')
+    return res
+
+
+def r20_10(ctx, counts) -> RuleResult:
+    """numeric functions take the typed value of a typed node, not its string"""
+    from ..engine.cfg import CFG
+    from ..engine.dataflow import branch_facts
+    from ..engine.srcmodel import walk_local
+    res = RuleResult(
+        'R20.10', 'TYPED-NODE-NUMERIC-ARGUMENT',
+        'With a schema the value of a node argument is its typed value (xs:int stays an '
+        'integer). In the functions bound to sum, abs, ceiling, floor and round a conversion of '
+        'a node through its string (self.number_value(x), get_double(self.string_value(x)), '
+        'Decimal(self.string_value(x))) is reached only under a fact that the node is not typed '
+        '(`not x.is_typed`, or the negation of an earlier `.. x.is_typed ..` branch) or in XPath '
+        '1.0 / compatibility mode. Otherwise sum() of xs:int elements is an xs:double and abs() '
+        'of an xs:int attribute an xs:decimal: supplying the schema changes the result type.')
+    funcs: dict[FuncInfo, set[str]] = {}
+    for rec in ctx.reg.all_records():
+        if rec.symbol in ('sum', 'abs', 'ceiling', 'floor', 'round'):
+            ref = rec.method('evaluate')
+            if ref is not None and ref.func is not None and ref.origin != 'class':
+                funcs.setdefault(ref.func, set()).add(rec.symbol)
+    if len(funcs) < 4:
+        raise AnalysisError(f'numeric functions located: {len(funcs)} < 4')
+    n = 0
+    for f, syms in sorted(funcs.items(), key=lambda kv: kv[0].key):
+        cfg = CFG(f.node)
+        facts = branch_facts(cfg)
+        via_string = {}
+        parent_of = {id(ch): pr for pr in ast.walk(f.node) for ch in ast.iter_child_nodes(pr)}
+        for x in walk_local(f.node):
+            if isinstance(x, ast.Assign) and len(x.targets) == 1 \
+                    and isinstance(x.targets[0], ast.Name) and isinstance(x.value, ast.Call) \
+                    and dotted(x.value.func) == 'self.string_value' and x.value.args \
+                    and isinstance(x.value.args[0], ast.Name):
+                via_string[x.targets[0].id] = x.value.args[0].id
+        for c in walk_local(f.node):
+            if not isinstance(c, ast.Call):
+                continue
+            d = dotted(c.func)
+            arg = None
+            if d == 'self.number_value' and c.args and isinstance(c.args[0], ast.Name):
+                arg = c.args[0].id
+            elif d in ('get_double', 'Decimal', 'decimal.Decimal', 'float') and c.args \
+                    and isinstance(c.args[0], ast.Call) \
+                    and dotted(c.args[0].func) == 'self.string_value' and c.args[0].args \
+                    and isinstance(c.args[0].args[0], ast.Name):
+                arg = c.args[0].args[0].id
+            elif d in ('get_double', 'Decimal', 'decimal.Decimal', 'float') and c.args \
+                    and isinstance(c.args[0], ast.Name) and c.args[0].id in via_string:
+                arg = via_string[c.args[0].id]
+            if arg is None:
+                continue
+            holder = None
+            for nd in cfg.nodes:
+                if nd.ast is not None and nd.kind in ('stmt', 'test') and any(
+                        y is c for e in nd.exprs() for y in ast.walk(e)):
+                    holder = nd
+                    break
+            fs = facts[holder.id] if holder is not None else frozenset()
+            node_typed = any(fa.startswith('+') and f'isinstance({arg}, XPathNode)' in fa
+                             for fa in fs)
+            par = parent_of.get(id(c))
+            while par is not None and not isinstance(par, ast.stmt):
+                if isinstance(par, ast.IfExp) and f'isinstance({arg}, XPathNode)' in stmt_text(
+                        par.test) and any(y is c for y in ast.walk(par.body)):
+                    node_typed = True
+                par = parent_of.get(id(par))
+            if not node_typed:
+                continue     # not a node operand (e.g. already atomized values)
+            n += 1
+            ok = any((fa.startswith('-') and f'{arg}.is_typed' in fa)
+                     or (fa.startswith('+') and ("version == '1.0'" in fa
+                                                 or 'compatibility_mode' in fa)
+                         and ' or ' not in fa)
+                     for fa in fs)
+            # a generator/loop value that can only be a non-node at this point
+            if not ok and any(fa.startswith('-') and f'isinstance({arg}, XPathNode)' in fa
+                              for fa in fs):
+                ok = True
+            # typed nodes were replaced by their typed value by an earlier top-level statement
+            if not ok and any(
+                    isinstance(st, ast.If) and st.lineno < c.lineno
+                    and f'{arg}.is_typed' in stmt_text(st.test)
+                    and any(isinstance(y, ast.Assign) and any(dotted(t) == arg for t in y.targets)
+                            for b in st.body for y in ast.walk(b))
+                    for st in f.node.body):
+                ok = True
+            res.instances.append(f'{f.key} [{"/".join(sorted(syms))}]: L{c.lineno} '
+                                 f'`{stmt_text(c)[:45]}` only for untyped nodes: {ok}')
+            if ok:
+                res.ok()
+            else:
+                res.fail(finding('R20.10', f, c, f'{stmt_text(c)[:30]} on a typed node',
+                                 f'`{stmt_text(c)[:60]}` converts the node `{arg}` through its '
+                                 f'string value whether or not it has a schema type: the typed '
+                                 f'value (e.g. xs:int) is lost and fn:{sorted(syms)[0]} returns an '
+                                 f'xs:double / xs:decimal'))
+    counts['node_number_conversions'] = n
+    if n < 3:
+        raise AnalysisError(f'node-to-number conversions in the numeric functions: {n} < 3')
+    return res
+
+
 def run(ctx) -> dict:
     model: Model = ctx.model
     counts: dict[str, int] = {}
@@ -513,7 +725,8 @@ def run(ctx) -> dict:
         'elementpath.xpath_context'), 0)
     return {
         'results': [r1, r2, r20_3(ctx, counts), r20_4(ctx, counts), r20_5(ctx, counts),
-                    r20_6(ctx, counts), r20_7(ctx, counts),
+                    r20_6(ctx, counts), r20_7(ctx, counts), r20_8(ctx, counts),
+                    r20_9(ctx, counts), r20_10(ctx, counts),
                     _state], 'counts': counts,
         'explanation':
             'Only the table-shaped necessary condition of "the typed value is an instance of the '
